@@ -48,6 +48,7 @@ fn main() {
         "C09" => props::c09::run(&a),
         "C11" => props::c11::run(&a),
         "C12" => props::c12::run(&a),
+        "C20" => props::c20::run(&a),
         _ => { eprintln!("unknown property {}", prop); std::process::exit(2); }
     }
 }
